@@ -167,7 +167,7 @@ def _compare(m, rtype, kc, got, ins_expected=True):
     return And(*conds)
 
 
-def h_roundtrip(eng, focus, rtype, ws, kc, name_len=2, res_len=3, serial_max=10 ** 7 - 1):
+def h_roundtrip(eng, focus, rtype, ws, kc, name_len=2, res_len=3, serial_max=10 ** 7 - 1, is_cif=False):
     from pdb2pqr import io, main, structures
 
     m = _model(eng, focus, name_len, res_len, serial_max)
@@ -191,14 +191,14 @@ def h_roundtrip(eng, focus, rtype, ws, kc, name_len=2, res_len=3, serial_max=10 
     with patched(*_patches(eng), (main, "open", lambda *a, **k: _File(sink))):
         try:
             line = atom.get_pqr_string(chainflag=kc) + "\n"
-            main.print_pqr(Args, [line, "TER\n", "END"], "", None, False)
+            main.print_pqr(Args, [line, "TER\n", "END"], "", None, is_cif)  # is_cif: the CIF-flavoured trailer drops TER records (C10)
         except (ValueError, TypeError, IndexError, OverflowError) as e:
             eng.note(f"writer raised {type(e).__name__}: loud failure, tolerated")
             eng.check(True, "writer-raises")
             return
         if strs.leaked(sink):
             raise core.Inconclusive("a C-level string routine bypassed the layout-string model in the writer")
-        atom_lines = [s for s in sink if not (isinstance(s, str) and not isinstance(s, strs.SymStr) and (s.startswith("TER") or s.startswith("END")))]
+        atom_lines = [s for s in sink if not (isinstance(s, str) and not isinstance(s, strs.SymStr) and (s.startswith("TER") or s.startswith("END") or (is_cif and s == "#\n")))]
         eng.check(len(atom_lines) == 1, "one-line-per-atom", note=f"{len(atom_lines)} atom lines written for one atom")
         if len(atom_lines) != 1:
             return
@@ -366,6 +366,9 @@ def obligations(tier):
         for ws in (False, True):
             for kc in (False, True):
                 obs.append(Obligation(f"atom-list-n{n}-{'ws' if ws else 'fixed'}-{'kc' if kc else 'nokc'}", h_atom_list, dict(n=n, ws=ws, kc=kc), group="atom-list", time_cap=1200))
+    # the CIF-flavoured output (TER records dropped, a closing '#' line) reads back like the plain one (found+fixed C08-F10)
+    for ws in (False, True):
+        obs.append(Obligation(f"roundtrip-cif-output-{'ws' if ws else 'fixed'}", h_roundtrip, dict(focus=["res_seq", "x"], rtype="HETATM", ws=ws, kc=True, is_cif=True), group="roundtrip", time_cap=1500, max_paths=100000))
     for ff, pka, lig in ((0, 0, 0),) if tier == "quick" else ((0, 0, 0), (1, 1, 0), (2, 0, 1)):
         obs.append(Obligation(f"chain-flow-ff{ff}-pka{pka}-lig{lig}", h_chain_flow, dict(ff=ff, pka=pka, ligand=lig), group="flow", time_cap=1500, max_paths=200000))
     for ff in (0, 1):
